@@ -28,7 +28,7 @@ Proof. repeat split; simpl; ring. Qed.
 Theorem Schubert_evaluate_gen_eq_model : forall x, (2 <= length x)%nat -> Schubert_evaluate_gen_R x = [schubert x].
 Proof.
   intros [|a [|b t]] H; simpl in H; try lia.
-  unfold Schubert_evaluate_gen_R, Schubert_evaluate_gen, Schubert_evaluate_l1_body. rops.
+  unfold Schubert_evaluate_gen_R, Schubert_evaluate_gen. rops.
   cbn [seq fold_left Nat.add nth]. destruct INR_lit as (E1 & E2 & E3 & E4 & E5 & E6).
   rewrite E1, E2, E3, E4, E5, E6. unfold schubert, schubert_g. f_equal. ring.
 Qed.
@@ -38,7 +38,7 @@ Proof. intros. unfold Schubert_set_gen_R, Schubert_set_gen, declared. rops. refl
 
 Theorem Zakharov_evaluate_gen_eq_model : forall x, Zakharov_evaluate_gen_R x = [zakharov x].
 Proof.
-  intros. unfold Zakharov_evaluate_gen_R, Zakharov_evaluate_gen, Zakharov_evaluate_l1_body. rops.
+  intros. unfold Zakharov_evaluate_gen_R, Zakharov_evaluate_gen. rops.
   rewrite fold_left_triple_el, !fold_add_sum_idx, sum_idx_const, !Rplus_0_l.
   rewrite (sum_idx_ext _ (fun i c => 1 / 2 * INR (S i) * c)) by (intros; rewrite INR_add1; lra).
   reflexivity.
@@ -50,7 +50,7 @@ Proof. intros. unfold Zakharov_set_gen_R, Zakharov_set_gen, declared. rops. rewr
 (* ---- XinSheYang, XinSheYang2: the loop OVERWRITES its accumulators: only the last coordinate counts *)
 Theorem XinSheYang_evaluate_gen_eq_model : forall x, XinSheYang_evaluate_gen_R x = [xsy1 x].
 Proof.
-  intros. unfold XinSheYang_evaluate_gen_R, XinSheYang_evaluate_gen, XinSheYang_evaluate_l1_body. rops.
+  intros. unfold XinSheYang_evaluate_gen_R, XinSheYang_evaluate_gen. rops.
   rewrite fold_left_pair, !fold_overwrite. unfold xsy1.
   destruct x; [|reflexivity].
   cbn [last]. rewrite Rabs_R0, !Rmult_0_l. reflexivity.
@@ -61,7 +61,7 @@ Proof. intros. unfold XinSheYang_set_gen_R, XinSheYang_set_gen, declared. rops. 
 
 Theorem XinSheYang2_evaluate_gen_eq_model : forall x, XinSheYang2_evaluate_gen_R x = [xsy2 x].
 Proof.
-  intros. unfold XinSheYang2_evaluate_gen_R, XinSheYang2_evaluate_gen, XinSheYang2_evaluate_l1_body. rops.
+  intros. unfold XinSheYang2_evaluate_gen_R, XinSheYang2_evaluate_gen. rops.
   rewrite fold_left_triple, !fold_overwrite. unfold xsy2, xsy2_1.
   destruct x; [|reflexivity].
   cbn [last]. unfold Rdiv. rewrite Rmult_0_l, !pow_i, Rmult_0_r, cos_0 by lia. f_equal. ring.
@@ -72,12 +72,13 @@ Proof. intros. unfold XinSheYang2_set_gen_R, XinSheYang2_set_gen, declared. rops
 
 (* ---- XinSheYang3: one draw of uniform(0, 1) per coordinate, in call order *)
 Lemma xsy3_fold : forall (draws : nat -> R) x i k f1,
-  fold_left (XinSheYang3_evaluate_l1_body R_ops draws) (combine (seq i (length x)) x) (f1, k)
+  fold_left (fun (st : R * nat) (el : nat * R) => let '(_, k) := st in let '(i, c) := el in
+                (draws k * Rabs (c - 1 / (INR i + 1)), S k)) (combine (seq i (length x)) x) (f1, k)
   = (xsy3_loop i (map draws (seq k (length x))) x f1, (k + length x)%nat).
 Proof.
   induction x as [|c x IH]; intros; cbn [length seq combine fold_left map xsy3_loop].
   - rewrite Nat.add_0_r. reflexivity.
-  - unfold XinSheYang3_evaluate_l1_body at 2. rops. rewrite IH, INR_plus1, Nat.add_succ_r. reflexivity.
+  - rewrite IH, INR_plus1, Nat.add_succ_r. reflexivity.
 Qed.
 
 Theorem XinSheYang3_evaluate_gen_eq_model : forall (draws : nat -> R) x,
@@ -118,8 +119,8 @@ Qed.
 
 Theorem AlpineFunction_evaluate_gen_eq_model : forall x, AlpineFunction_evaluate_gen_R x = [alpine x].
 Proof.
-  intros. unfold AlpineFunction_evaluate_gen_R, AlpineFunction_evaluate_gen, AlpineFunction_evaluate_l1_body. rops.
-  rewrite fold_add_sum_map, Rplus_0_l. reflexivity.
+  intros. unfold AlpineFunction_evaluate_gen_R, AlpineFunction_evaluate_gen. rops.
+  rewrite ?fold_plus_map_sum, ?fold_add_sum_map, Rplus_0_l. reflexivity.   (* loop or sum / np.sum spelling *)
 Qed.
 
 Theorem AlpineFunction_set_gen_eq_model : forall n, AlpineFunction_set_gen_R n = declared alpine_b n.
